@@ -17,13 +17,13 @@
 //!   execs  = [seq optimised, seq literal, par optimised, par literal] outcomes
 //!   extra  = prog: [desc of build_plan().chain, explain().steps node types,
 //!                   [collect_seq, collect_par] outcomes]
-//!            syn:  the outcome of the literal sequential run of the prefix before each
-//!                  non-terminal Materialized node
+//!            syn:  [the outcome of the literal sequential run of the prefix before each
+//!                  non-terminal Materialized node, explain() node types of the optimised chain]
 use ibv::engine::*;
 use ibv::{Emitter, SplitMix64, Tier, drive};
 use ironbeam::combiners::DistinctSet;
 use ironbeam::node::{DynOp, Node};
-use ironbeam::planner::{build_plan, verif_passes as vp};
+use ironbeam::planner::{Plan, build_plan, verif_passes as vp};
 use ironbeam::runner::verif_exec::{exec_chain_par, exec_chain_seq};
 use ironbeam::type_token::{Partition, TypeTag, vec_ops_for};
 use ironbeam::{Max, Min, PCollection, Pipeline, Sum, TopK, from_vec};
@@ -312,6 +312,12 @@ macro_rules! with_row_type {
     };
 }
 
+/// node types `Plan::explain` reports for a chain (Plan's fields are public)
+fn explain_types(chain: &[Node]) -> Vec<String> {
+    let plan = Plan { chain: chain.to_vec(), suggested_partitions: None, optimizations: vec![] };
+    plan.explain().steps.iter().map(|st| st.node_type.clone()).collect()
+}
+
 // ------------------------------------------------------------------ kind "prog"
 
 fn prog_obs<T: Row>(p: &Pipeline, c: PCollection<T>, parts: usize) -> Value {
@@ -320,7 +326,11 @@ fn prog_obs<T: Row>(p: &Pipeline, c: PCollection<T>, parts: usize) -> Value {
     let execs = exec4::<T>(&s.optimised, &raw, parts);
     let plan = build_plan(p, c.node_id()).expect("build_plan");
     let plan_desc = desc(&plan.chain, &s.ids);
-    let explain: Vec<String> = plan.explain().steps.iter().map(|st| st.node_type.clone()).collect();
+    let explain: Vec<String> = if mutant().as_deref() == Some("explain_raw") {
+        explain_types(&raw) // self-test: an explain that describes the unoptimised chain
+    } else {
+        plan.explain().steps.iter().map(|st| st.node_type.clone()).collect()
+    };
     let cs = {
         let c = c.clone();
         caught(move || rows_json(c.collect_seq()))
@@ -632,7 +642,8 @@ fn run_syn(input: &Value) -> Value {
             }
         }
     }
-    json!(["ok", s.descs, s.opinfo, execs, prefixes])
+    let explain = explain_types(if mutant().as_deref() == Some("explain_raw") { &raw } else { &s.optimised });
+    json!(["ok", s.descs, s.opinfo, execs, [Value::Array(prefixes), json!(explain)]])
 }
 
 fn run(kind: &str, input: &Value) -> Value {
